@@ -67,3 +67,17 @@ EXTRACT ("C12", m33_removeScaling, "M33.removeScaling", { IN (Matrix33, m); bool
 EXTRACT ("C12", m44_composeTRH, "M44.composeTRH", { IN (Vec3, t); IN (Vec3, r); IN (Vec3, h); Matrix44<T> M; M.translate (t); M.rotate (r); M.shear (h); c.out (M); })
 EXTRACT ("C12", m44_composeTRS, "M44.composeTRS", { IN (Vec3, t); IN (Vec3, r); IN (Vec3, s); Matrix44<T> M; M.makeIdentity (); M.translate (t); M.rotate (r); M.scale (s); c.out (M); })
 EXTRACT ("C12", m33_composeTRH, "M33.composeTRH", { IN (Vec2, t); T r = c.inS ("r"); T h = c.inS ("h"); Matrix33<T> M; M.translate (t); M.rotate (r); M.shear (h); c.out (M); })
+
+// ---------------------------------------------------------------- Euler's re-ordering constructor from order XYZ (24 orders)
+// `Euler<T> eXYZ (r, XYZ); Euler<T> e (eXYZ, rOrder);` as the 7-argument extractSHRT overload uses it; the angles only (the same
+// code as C11's `Euler.reorderFromXYZ_<O>`, which also reports the order: theorem C12Euler.reorder_copies_agree).  Extracted HERE so
+// that the opaque call of it in sym_c12e.cpp refers to a definition regenerated by the same check.
+#define C12_ORDERS(X)                                                                     \
+    X (XYZ) X (XZY) X (YZX) X (YXZ) X (ZXY) X (ZYX)                                       \
+    X (XZX) X (XYX) X (YXY) X (YZY) X (ZYZ) X (ZXZ)                                       \
+    X (XYZr) X (XZYr) X (YZXr) X (YXZr) X (ZXYr) X (ZYXr)                                 \
+    X (XZXr) X (XYXr) X (YXYr) X (YZYr) X (ZYZr) X (ZXZr)
+#define C12_REORDER(O)                                                                                                             \
+    EXTRACT ("C12", m44_reorder_##O, "M44.reorderFromXYZ_" #O,                                                                      \
+             { IN (Vec3, a); Euler<T> s (a, Euler<T>::XYZ); Euler<T> e (s, Euler<T>::O); c.out (Vec3<T> (e.x, e.y, e.z)); })
+C12_ORDERS (C12_REORDER)
